@@ -120,6 +120,416 @@ GEN_CFG = ("INIT Init\nNEXT Next\nINVARIANT WellFormed\nINVARIANT ResultIsCPD\nI
 GEN_ACTIONS = ["FitMLE", "FitK2", "FitBDeu", "FitDirScalar", "FitDirTable", "FitUpdate"]
 
 
+
+# =========================================================================== worker side (real pgmpy)
+TOL = 1e-9 if os.environ.get("VERIF_BACKEND", "numpy") == "numpy" else 1e-6   # torch builds tensors through float32
+
+
+def _to_np(x):
+    try:
+        return x.detach().cpu().numpy()
+    except AttributeError:
+        return x
+
+
+def _case_rng(seed, hs, case):
+    return random.Random(f"{seed}:{hs}:{jhash(case)}")
+
+
+class DConc:
+    """concretisation of a data instance: column names, state labels, column dtypes"""
+
+    def __init__(self, inst, rng):
+        from ..concretise import state_names, var_names
+        cols = inst["cols"]
+        # column names are strings: with integer names pandas' unstack() reads a parent list as level NUMBERS (>= 2 parents
+        # fail inside pandas) and EM passes names as keyword arguments; the property does not quantify over name types
+        self.vn = var_names(cols, rng, "str")
+        self.inv = {c: t for t, c in self.vn.items()}
+        self.sn, self.dtype = {}, {}
+        for c in cols:
+            k = rng.choice(["int", "range", "str", "str"])
+            self.sn[c] = state_names(inst["dom"][c], rng, k)
+            self.dtype[c] = rng.choice(["int64", "category"]) if k in ("int", "range") else rng.choice(["object", "category"])
+
+    def labels(self, c, toks):
+        return [self.sn[c][t] for t in toks]
+
+
+def make_df(conc, inst, rows, rng, mode):
+    """mode: plain (one line per row, weights ignored) | expand (integer weight = repeated lines) | weighted (_weight column).
+    Row order and column order are random; categorical columns get their categories in random order incl. never-observed ones."""
+    import pandas as pd
+    recs, ws = [], []
+    for r in rows:
+        k = r["w"][0] if mode == "expand" else 1
+        recs += [r["a"]] * k
+        ws += [r["w"][0] / r["w"][1]] * k
+    order = list(range(len(recs)))
+    rng.shuffle(order)
+    cols = list(inst["cols"])
+    rng.shuffle(cols)
+    data = {}
+    for c in cols:
+        vals = [conc.sn[c][recs[i][c]] for i in order]
+        dt = conc.dtype[c]
+        if dt == "int64":
+            ser = pd.Series(vals, dtype="int64")
+        elif dt == "category":
+            cats = conc.labels(c, inst["dom"][c])
+            rng.shuffle(cats)
+            ser = pd.Series(pd.Categorical(vals, categories=cats))
+        else:
+            ser = pd.Series(vals, dtype=object)
+        data[conc.vn[c]] = ser
+    df = pd.DataFrame(data)
+    if mode == "weighted":
+        df.insert(rng.randint(0, len(cols)), "_weight", [ws[i] for i in order])
+    return df
+
+
+def make_model(conc, inst, edges, rng, cls):
+    m = cls()
+    nodes = [conc.vn[c] for c in inst["cols"]]
+    rng.shuffle(nodes)
+    m.add_nodes_from(nodes)
+    es = [(conc.vn[u], conc.vn[v]) for u, v in edges]
+    rng.shuffle(es)                      # = parent declaration order
+    for u, v in es:
+        m.add_edge(u, v)
+    return m
+
+
+def state_lists(conc, case, rng, explicit):
+    """the state_names argument and, per column, the state list the result must carry.
+    explicit (declared mode, or forced): every column gets its states in a random NON-sorted order.
+    otherwise: nothing, {} or a random subset of columns is declared (with exactly the observed states); the remaining
+    columns are left to the estimator (sorted observed values; only the SET is then compared)."""
+    dom = case["dom"]
+    lists, arg, strict = {}, {}, {}
+    how = "all" if explicit else rng.choice(["none", "none", "empty", "some"])
+    for c in dom:
+        lab = conc.labels(c, dom[c])
+        if how == "all" or (how == "some" and rng.random() < 0.5):
+            rng.shuffle(lab)
+            arg[conc.vn[c]] = list(lab)
+            strict[c] = True
+        else:
+            lab = sorted(lab)
+            strict[c] = False
+        lists[c] = lab
+    if how == "none":
+        arg = None
+    return arg, lists, strict
+
+
+def _num(x, rng):
+    n, d = x
+    if d == 1 and rng.random() < 0.5:
+        return int(n)
+    return n / d
+
+
+def _cellmap(cells):
+    return {tuple(sorted(c["a"].items())): c["p"] for c in cells}
+
+
+def table_2d(conc, v, ps_order, lists, cells):
+    """lay a named-assignment table out the way the library takes tables: row = state of v in its list order,
+    column = parent configuration, row-major over ps_order (first parent slowest)."""
+    import itertools
+    cm = _cellmap(cells)
+    inv = {c: {lab: t for t, lab in conc.sn[c].items()} for c in [v] + list(ps_order)}
+    tab = []
+    for sv in lists[v]:
+        row = []
+        for combo in itertools.product(*[lists[p] for p in ps_order]):
+            a = {v: inv[v][sv]}
+            a.update({p: inv[p][s] for p, s in zip(ps_order, combo)})
+            n, d = cm[tuple(sorted(a.items()))]
+            row.append(n / d)
+        tab.append(row)
+    return tab
+
+
+def check_cpd(cpd, conc, v, exp, lists, strict, tol=None):
+    """exp = {"ps": [...], "cells": [...]} from TLC.  Returns (clause, detail) or None.  Everything by NAME lookup."""
+    tol = tol or TOL
+    if cpd is None:
+        return "missing_cpd", None
+    if cpd.variable != conc.vn[v] or cpd.variables[0] != conc.vn[v]:
+        return "variable", repr(cpd.variable)
+    got_ps = list(cpd.variables[1:])
+    if len(got_ps) != len(exp["ps"]) or set(got_ps) != {conc.vn[p] for p in exp["ps"]}:
+        return "parents", repr(got_ps)
+    fam = [v] + [conc.inv[x] for x in got_ps]
+    if [int(c) for c in cpd.cardinality] != [len(lists[t]) for t in fam]:
+        return "cardinality", repr([int(c) for c in cpd.cardinality])
+    for t in fam:
+        got = list(cpd.state_names[conc.vn[t]])
+        if len(got) != len(lists[t]) or (got != lists[t] if strict[t] else set(got) != set(lists[t])):
+            return "state_names", repr(got)
+    vals = _to_np(cpd.values)
+    bad = []
+    for c in exp["cells"]:
+        try:
+            idx = tuple(cpd.name_to_no[conc.vn[t]][conc.sn[t][c["a"][t]]] for t in fam)
+        except KeyError:
+            return "state_names", "lookup " + repr(c["a"])
+        n, d = c["p"]
+        x = float(vals[idx])
+        if not (abs(x - n / d) <= tol * max(1.0, abs(n / d))):
+            bad.append({"a": c["a"], "got": x, "want": [n, d]})
+    if bad:
+        return "value", bad[:4]
+    return None
+
+
+def _est_call(case, conc, lists, rng, weighted):
+    """estimator class name + keyword arguments of get_parameters / fit for the case's prior"""
+    kind = case["kind"] if case["kind"] != "update" else case["pk"]
+    kw = {}
+    if weighted:
+        kw["weighted"] = True
+    if kind == "mle":
+        return "mle", kw
+    if kind == "k2":
+        kw["prior_type"] = rng.choice(["K2", "k2"])
+    elif kind == "bdeu":
+        kw["prior_type"] = rng.choice(["BDeu", "bdeu"])
+        x = _num(case["x"], rng)
+        kw["equivalent_sample_size"] = {conc.vn[c]: x for c in case["dom"]} if rng.random() < 0.3 else x
+    elif kind == "dir_scalar":
+        kw["prior_type"] = "dirichlet"
+        kw["pseudo_counts"] = _num(case["x"], rng)
+    elif kind == "dir_table":
+        kw["prior_type"] = "dirichlet"
+        al = {a["v"]: a["cells"] for a in case["alpha"]}
+        ps = {c["v"]: c["ps"] for c in case["cpds"]}
+        kw["pseudo_counts"] = {conc.vn[v]: table_2d(conc, v, sorted(ps[v], key=lambda p: conc.vn[p]), lists, al[v]) for v in al}
+    return "bayes", kw
+
+
+def _classes():
+    from pgmpy.base import DAG
+    from pgmpy.estimators import BayesianEstimator, ExpectationMaximization, MaximumLikelihoodEstimator
+    from pgmpy.models import BayesianNetwork
+    return {"mle": MaximumLikelihoodEstimator, "bayes": BayesianEstimator, "em": ExpectationMaximization,
+            "BN": BayesianNetwork, "DAG": DAG}
+
+
+API_NAMES = {("fit", "mle"): "BayesianNetwork.fit", ("fit", "bayes"): "BayesianNetwork.fit", ("fit", "em"): "BayesianNetwork.fit",
+             ("dag_fit", "mle"): "DAG.fit", ("dag_fit", "bayes"): "DAG.fit",
+             ("get_parameters", "mle"): "MaximumLikelihoodEstimator.get_parameters",
+             ("get_parameters", "bayes"): "BayesianEstimator.get_parameters",
+             ("get_parameters", "em"): "ExpectationMaximization.get_parameters",
+             ("estimate_cpd", "mle"): "MaximumLikelihoodEstimator.estimate_cpd",
+             ("estimate_cpd", "bayes"): "BayesianEstimator.estimate_cpd"}
+
+
+def replay_one(case, inst, seed, hs, p_nj2=0.0, stub=None):
+    """one abstract case -> one concretisation -> the real calls.  Returns (ncalls, violation or None)."""
+    K = _classes()
+    rng = _case_rng(seed, hs, case)
+    conc = DConc(inst, rng)
+    edges = [tuple(e) for e in case["edges"]]
+    exp = {c["v"]: c for c in case["cpds"]}
+    cols = inst["cols"]
+    n_jobs = 2 if rng.random() < p_nj2 else 1
+    allone = all(r["w"] == [1, 1] for r in inst["rows"])
+    ncalls = [0]
+    feats = {}                                           # signature features: few and meaningful
+    detail = {"kind": case["kind"], "sn": case["sn"]}    # everything else about the concretisation
+    isolated = {c for c in cols if all(c not in e for e in edges)}
+
+    def viol(api, clause, observed=None, expected=None, **more):
+        f = dict(feats)
+        f.update(more)
+        return {"api": api, "clause": clause, "features": f, "observed": observed, "expected": expected, "detail": dict(detail),
+                "case": {"kind": "gen", "inst": inst, "case": case, "seed": seed, "hashseed": hs, "p_nj2": p_nj2}}
+
+    def compare(api, cpds_by_var, lists, strict, **more):
+        """first violation per clause over all nodes (a node without CPD does not hide a wrong value elsewhere)"""
+        out, seen = [], set()
+        for v in cols:
+            r = check_cpd(cpds_by_var.get(conc.vn[v]), conc, v, exp[v], lists, strict)
+            if r and r[0] not in seen:
+                seen.add(r[0])
+                extra = {"isolated_node": v in isolated} if (r[0] == "missing_cpd" or feats.get("estimator") == "update") else {}
+                out.append(viol(api, r[0], r[1], {"node": v, "cells": exp[v]["cells"][:6]}, **extra, **more))
+        return out
+
+    def validated(api, bn, **more):
+        try:
+            ok = bn.check_model()
+        except Exception as ex:  # noqa
+            return [viol(api, "check_model", repr(ex)[:200], True, **more)]
+        return [] if ok is True else [viol(api, "check_model", repr(ok), True, **more)]
+
+    def both(api, got, lists, strict, bn, **more):
+        vs = compare(api, got, lists, strict, **more)
+        return vs if vs else validated(api, bn, **more)          # an invalid network is reported when nothing more specific was
+
+    # ------------------------------------------------------------------ incremental update
+    if case["kind"] == "update":
+        rows1, rows2 = inst["rows"][:inst["split"]], inst["rows"][inst["split"]:]
+        arg, lists, strict = state_lists(conc, case, rng, True)
+        df2 = make_df(conc, inst, rows2, rng, "expand")
+        nprev = case["nprev"] if case["nprev"] else None
+        how = rng.choice(["after_fit", "manual", "manual"])
+        detail["how"] = how
+        feats["estimator"] = "update"
+        bn = make_model(conc, inst, edges, rng, K["BN"])
+        api = "BayesianNetwork.fit_update"
+        sorted_prev = True
+        try:
+            if how == "after_fit":
+                est, kw = _est_call(case, conc, lists, rng, False)
+                df1 = make_df(conc, inst, rows1, rng, "expand")
+                bn.fit(df1, estimator=K[est], state_names=arg, **kw)
+                ncalls[0] += 1
+                prev = {c["v"]: c for c in case["prev"]}
+                for v in cols:
+                    r = check_cpd(bn.get_cpds(conc.vn[v]), conc, v, {"ps": exp[v]["ps"], "cells": prev[v]["cells"]}, lists, strict)
+                    if r:
+                        extra = {"isolated_node": v in isolated} if r[0] == "missing_cpd" else {}
+                        return ncalls[0], [viol("BayesianNetwork.fit", r[0], r[1], {"node": v, "cells": prev[v]["cells"][:6]},
+                                                estimator=est, **extra)]
+            else:
+                from pgmpy.factors.discrete import TabularCPD
+                prev = {c["v"]: c for c in case["prev"]}
+                for v in cols:
+                    ps = list(exp[v]["ps"])
+                    rng.shuffle(ps)
+                    if [conc.vn[p] for p in ps] != sorted(conc.vn[p] for p in ps):
+                        sorted_prev = False
+                    tab = table_2d(conc, v, ps, lists, prev[v]["cells"])
+                    bn.add_cpds(TabularCPD(conc.vn[v], len(lists[v]), tab, evidence=[conc.vn[p] for p in ps] or None,
+                                           evidence_card=[len(lists[p]) for p in ps] or None,
+                                           state_names={conc.vn[x]: list(lists[x]) for x in [v] + ps}))
+            feats["prev_parents_sorted"] = sorted_prev
+            detail["n_jobs"] = n_jobs
+            if stub:
+                stub(bn, df2, nprev)
+            else:
+                bn.fit_update(df2, n_prev_samples=nprev, n_jobs=n_jobs)
+            ncalls[0] += 1
+        except Exception as ex:  # noqa
+            if os.environ.get("C06_DEBUG"):
+                raise
+            return ncalls[0], [viol(api, "raises", repr(ex)[:300])]
+        got = {c.variable: c for c in bn.get_cpds()}
+        return ncalls[0], both(api, got, lists, strict, bn)
+
+    # ------------------------------------------------------------------ one-shot fits
+    apis = ["fit", "get_parameters", "estimate_cpd", "dag_fit"]
+    if case["kind"] == "mle" and case["intw"]:
+        apis += ["em_fit", "em_get_parameters"]
+    how = rng.choice(apis)
+    if how.startswith("em_"):
+        mode = "plain" if allone else "expand"
+    elif allone:
+        mode = rng.choice(["plain", "weighted"])
+    elif case["intw"]:
+        mode = rng.choice(["expand", "weighted"])
+    else:
+        mode = "weighted"
+    arg, lists, strict = state_lists(conc, case, rng, case["sn"] == "declared")
+    df = make_df(conc, inst, inst["rows"], rng, mode)
+    est, kw = _est_call(case, conc, lists, rng, mode == "weighted")
+    snkw = {} if arg is None else {"state_names": arg}
+    detail.update({"how": how, "data": mode, "n_jobs": n_jobs})
+    feats["estimator"] = "em" if how.startswith("em_") else est
+    try:
+        if how in ("em_fit", "em_get_parameters"):
+            feats["ncols"] = len(cols)
+            bn = make_model(conc, inst, edges, rng, K["BN"])
+            ekw = {"max_iter": rng.randint(1, 3)}
+            if how == "em_fit":
+                api = API_NAMES[("fit", "em")]
+                bn.fit(df, estimator=K["em"], **snkw, **ekw)
+                got = {c.variable: c for c in bn.get_cpds()}
+            else:
+                api = API_NAMES[("get_parameters", "em")]
+                res = K["em"](bn, df, **snkw).get_parameters(show_progress=False, **ekw)
+                got = {c.variable: c for c in res}
+                bn.add_cpds(*res)
+            ncalls[0] += 1
+            feats["latents"] = 0
+            return ncalls[0], both(api, got, lists, strict, bn)
+        if how == "fit":
+            api = API_NAMES[("fit", est)]
+            bn = make_model(conc, inst, edges, rng, K["BN"])
+            if est == "mle" and rng.random() < 0.5:
+                ret = bn.fit(df, n_jobs=n_jobs, **snkw, **kw)           # default estimator
+            else:
+                ret = bn.fit(df, estimator=K[est], n_jobs=n_jobs, **snkw, **kw)
+            ncalls[0] += 1
+            got = {c.variable: c for c in bn.get_cpds()}
+            return ncalls[0], both(api, got, lists, strict, bn)
+        if how == "dag_fit":
+            api = API_NAMES[("dag_fit", est)]
+            dag = make_model(conc, inst, edges, rng, K["DAG"])
+            bn = dag.fit(df, estimator=K[est], n_jobs=n_jobs, **snkw, **kw)
+            ncalls[0] += 1
+            got = {c.variable: c for c in bn.get_cpds()}
+            vs = []
+            if set(bn.nodes()) != {conc.vn[c] for c in cols}:
+                vs.append(viol(api, "nodes", sorted(map(str, bn.nodes())), sorted(str(conc.vn[c]) for c in cols),
+                               has_isolated_node=bool(isolated)))
+                got_present = {k: c for k, c in got.items()}
+                cmpv = [x for x in compare(api, got_present, lists, strict) if x["clause"] != "missing_cpd"]
+                return ncalls[0], vs + cmpv
+            return ncalls[0], both(api, got, lists, strict, bn)
+        bn = make_model(conc, inst, edges, rng, K["BN"])
+        e = K[est](bn, df, **snkw)
+        if how == "get_parameters":
+            api = API_NAMES[("get_parameters", est)]
+            res = e.get_parameters(n_jobs=n_jobs, **kw)
+            ncalls[0] += 1
+            got = {c.variable: c for c in res}
+            if len(res) != len(got):
+                return ncalls[0], [viol(api, "duplicate_cpds", [str(c.variable) for c in res], len(cols))]
+            bn.add_cpds(*res)
+            return ncalls[0], both(api, got, lists, strict, bn)
+        api = API_NAMES[("estimate_cpd", est)]
+        got = {}
+        order = list(cols)
+        rng.shuffle(order)
+        for v in order:
+            k2 = dict(kw)
+            if isinstance(k2.get("pseudo_counts"), dict):
+                k2["pseudo_counts"] = k2["pseudo_counts"][conc.vn[v]]
+            if isinstance(k2.get("equivalent_sample_size"), dict):
+                k2["equivalent_sample_size"] = k2["equivalent_sample_size"][conc.vn[v]]
+            try:
+                got[conc.vn[v]] = e.estimate_cpd(conc.vn[v], **k2)
+            except Exception as ex:  # noqa
+                if os.environ.get("C06_DEBUG"):
+                    raise
+                return ncalls[0] + 1, [viol(api, "raises", repr(ex)[:300], None, isolated_node=v in isolated)]
+            ncalls[0] += 1
+        bn.add_cpds(*got.values())
+        return ncalls[0], both(api, got, lists, strict, bn)
+    except Exception as ex:  # noqa
+        if os.environ.get("C06_DEBUG"):
+            raise
+        api = {"em_fit": "BayesianNetwork.fit", "em_get_parameters": "ExpectationMaximization.get_parameters", "fit": "BayesianNetwork.fit",
+               "dag_fit": "DAG.fit"}.get(how) or API_NAMES[(how, est)]
+        return max(1, ncalls[0]), [viol(api, "raises", repr(ex)[:300])]
+
+
+def replay_gen(payload):
+    insts = {i["id"]: i for i in payload["insts"]}
+    hs = int(os.environ.get("PYTHONHASHSEED", "0"))
+    fails, ncalls = [], 0
+    for case in payload["cases"]:
+        n, vs = replay_one(case, insts[case["inst"]], payload["seed"], hs, payload.get("p_nj2", 0.0))
+        ncalls += n
+        fails += vs
+    return {"n": len(payload["cases"]), "calls": ncalls, "fails": fails[:int(os.environ.get("C06_MAXFAILS", "60"))], "nfails": len(fails)}
+
+
 def run(ctx):
     raise Machinery("not yet")
 
